@@ -45,26 +45,27 @@ func (ps Prices) addPrice(target, commodity *commodity.Commodity, price decimal.
 }
 
 // Normalize creates a normalized price map for the given commodity.
+// Normalize computes prices in t for all commodities connected to t. It walks
+// the price graph breadth-first, visiting neighbors in name order, so that a
+// directly declared price always wins over a chain and the result does not
+// depend on map iteration order.
 func (ps Prices) Normalize(t *commodity.Commodity) NormalizedPrices {
 	res := NormalizedPrices{t: one}
-	ps.normalize(t, res)
+	queue := []*commodity.Commodity{t}
+	for len(queue) > 0 {
+		c := queue[0]
+		queue = queue[1:]
+		for _, neighbor := range dict.SortedKeys(ps[c], commodity.Compare) {
+			if _, done := res[neighbor]; done {
+				continue
+			}
+			res[neighbor] = Multiply(ps[c][neighbor], res[c])
+			queue = append(queue, neighbor)
+		}
+	}
 	return res
 }
 
-// normalize recursively computes prices by traversing the price graph.
-// res must already contain a price for c.
-func (ps Prices) normalize(c *commodity.Commodity, res NormalizedPrices) {
-	for neighbor, price := range ps[c] {
-		if _, done := res[neighbor]; done {
-			continue
-		}
-		res[neighbor] = Multiply(price, res[c])
-		ps.normalize(neighbor, res)
-	}
-}
-
-// NormalizedPrices is a map representing the price of
-// commodities in some base commodity.
 type NormalizedPrices map[*commodity.Commodity]decimal.Decimal
 
 func newNormalizedPrices() NormalizedPrices {
